@@ -174,6 +174,7 @@ package value
 //@   requires okElem(value)
 //@   modifies ar.value, mem(ar.value)
 //@   ensures len(ar.value) == old(len(ar.value)) + 1 && ar.value[old(len(ar.value))] == value
+//@   ensures ar.value.base == old(ar.value.base) || fresh(ar.value)
 //@   ensures forall i int :: 0 <= i && i < old(len(ar.value)) ==> ar.value[i] == old(ar.value[i])
 
 //@ func arrayGetFirstItem
@@ -457,3 +458,26 @@ package value
 //@   modifies nothing
 //@   ensures r1 == nil ==> okElem(r0)
 //@   loop 1 invariant (replacerArgs.base == 0 || fresh(replacerArgs)) && sameMem(values) && (forall i int :: 0 <= i && i < len(values) ==> is(values[i], *String))
+
+//@ method (*Array).String
+//@   modifies nothing
+//@   loop 1 invariant strItem.base == 0 || fresh(strItem)
+
+//@ method (*Exception).Error
+//@   pure
+//@   ensures result == e.Message
+
+//@ external utf8.DecodeRuneInString(s) (r, size)
+//@   pure
+//@   ensures 0 <= size && size <= len(s) && (len(s) > 0 ==> size >= 1) && size <= 4 && 0 <= r && r <= 1114111
+
+//@ external utf8.DecodeRune(p) (r, size)
+//@   pure
+//@   ensures 0 <= size && size <= len(p) && (len(p) > 0 ==> size >= 1) && size <= 4 && 0 <= r && r <= 1114111
+
+//@ func strGetCharArray
+//@   requires s != nil
+//@   modifies nothing
+//@   ensures r1 == nil && okElem(r0)
+//@   loop 1 invariant charArr != nil && fresh(charArr) && (charArr.value.base == 0 || fresh(charArr.value))
+//@   loop 1 decreases len(v)
